@@ -523,6 +523,8 @@ func (x *Exec) havocHeap(s *State) {
 		}
 		s.heapHavoc(n, x.eng.decl[s.heap[n]])
 	}
+	s.hvAll = true
+	s.lazyRefs = nil
 }
 
 func (x *Exec) freshResults(s *State, sig *types.Signature, name string) Val {
@@ -937,6 +939,10 @@ func (x *Exec) applyContract(s *State, ct *Contract, fn *types.Func, sig *types.
 			for _, m := range ct.Modifies {
 				x.havocTarget(s, snapEnv, m)
 			}
+		} else if !ct.Extern && len(ct.Ensures) == 0 {
+			// a contract of a function of the repository that states neither a frame nor a
+			// postcondition has no checked frame (verify.go checks it only then): the call may write anything
+			x.havocHeap(s)
 		}
 		if !ct.Extern || ct.HasMod {
 			// the callee may allocate
@@ -1082,6 +1088,23 @@ func (x *Exec) havocTarget(s *State, env *SpecEnv, m *SpecExpr) {
 		}
 	case *ast.StarExpr: // *p
 		base := e.eval(t.X)
+		if base.K == KIface {
+			// *v for an interface value: the object it holds, whatever its type: its cell in every
+			// pointer-cell array (those first touched later too)
+			for _, n := range sortedKeys(s.heap) {
+				if !strings.HasPrefix(n, "H$") {
+					continue
+				}
+				srt := x.eng.decl[s.heap[n]]
+				if !strings.HasPrefix(srt, "(Array Int ") {
+					continue
+				}
+				el := srt[len("(Array Int ") : len(srt)-1]
+				s.heapSet(n, srt, mkSto(s.heap[n], base.Dat, x.eng.fresh("hv", el)), base.Dat)
+			}
+			s.lazyRefs = append(s.lazyRefs[:len(s.lazyRefs):len(s.lazyRefs)], base.Dat)
+			return
+		}
 		pt, ok := under(base.T).(*types.Pointer)
 		if !ok {
 			e.fail("modifies: %s is not a pointer", exprString(t.X))
